@@ -30,6 +30,23 @@ CHECKS["C13"] = dict(
     design_ref="DESIGN.md section 3, C13",
 )
 
+CHECKS["C09"] = dict(
+    engine="symex",
+    category="other",
+    text="Bounded symbolic verification: every feasible path of the real annotate_citations / SpanUpdater / maybe_balance_style_tags / wrap_html_tags source over symbolic spans, diff scripts with unbounded amounts, all three tag modes and both diff engines; on each path 'output minus the inserted sentinels == target text' is a z3 validity query on slices of the symbolic text; counter-models are realised as concrete plain/source texts (tags placed by a model-guided search in skip/wrap mode) and replayed.",
+    note="Bounds: <=2 annotations, <=3 diff blocks (quick) / <=4 (thorough); skip mode: one style-tag kind present in the text (quick). Stubs (contracts): diff engines return any alternating valid script; is_balanced_html arbitrary boolean; regex finditer/sub on the text by span contracts. Trusted: interpreter (self-tested against CPython each run), z3.",
+    technique=SYMEX,
+    design_ref="DESIGN.md section 3, C09/C10",
+)
+CHECKS["C10"] = dict(
+    engine="symex",
+    category="other",
+    text="Same engine and harness as C09 with the C10 clauses: without a source each non-empty span not overlapped by an earlier one is enclosed exactly once as before+text[s:e]+after, annotations appear in span order; with equal/insert-only scripts (forced alignment) the annotation encloses exactly source[s+ins(s) : e+ins(e-1)]; SpanUpdater.update is monotone and within the source for every script and both bisect sides.",
+    note="Bounds: <=3 annotations without source, <=2 with; <=4 diff blocks; unchecked mode (skip may omit and wrap splits annotations by design). The forced-alignment clause trusts the diff engines to return the minimal script for texts that differ by foreign insertions (their contract); a change of the arguments passed to the C diff call is outside the interpreter's view.",
+    technique=SYMEX,
+    design_ref="DESIGN.md section 3, C09/C10",
+)
+
 PENDING = {}
 
 NOT_APPLICABLE = {
